@@ -665,6 +665,9 @@ OUTSIDE_MORE = [
     ("figure", "inside:table-attribute-of-paragraph", "footnote", dict(border_left=[])),
     ("figure", "inside:table-attribute-of-paragraph", "source", dict(cell_height=[])),
     ("figure", "inside:widths-unused", "footnote", dict(col_rel_width=None)),
+    # `_determine_image_format` falls back to `mimetypes` (a table of the host system): `.jpe` is embedded as JPEG.  The
+    # model knows the extension table only and `acceptedF` follows the model — a documented limitation, counted here
+    ("figure", "unmodelled:mime-fallback", "figure", ".jpe"),
 ]
 
 
@@ -678,7 +681,9 @@ def _outside_worker_more(case):
     wd = tempfile.mkdtemp(prefix="rtfv_tot2_") if path == "figure" else None
     try:
         spec = copy.deepcopy(BASE_M if path == "multi" else BASE_F)
-        if comp in ("body0", "body1"):
+        if comp == "figure":
+            spec["figure"]["files"][1]["name"] = "f1" + kw
+        elif comp in ("body0", "body1"):
             spec["body"][int(comp[-1])].update(kw)
         elif comp == "header1":
             spec["headers"][1][0].update(kw)
@@ -718,7 +723,11 @@ def check_outside_more(res):
             raise common.MachineryError(f"encode_total ({path}): {t}")
         res.corr_checked += 1
         hyp = t["shapes"] and t.get("measure_ok", True) and t.get("contiguous", True)
-        if not t["accepted"]:
+        if cls.startswith("unmodelled:"):
+            res.count(f"total2:{path}:{cls}:real-{o['status']}:accepted={t['accepted']}:model-{t['result']}")
+            if o["status"] == "error" and t["accepted"] and hyp:
+                res.fail(case, f"rtf_encode() raises {o['exc']} on an accepted {path} configuration")
+        elif not t["accepted"]:
             res.disagree(case, f"the real constructors accept this {path} document, the accepted-predicate does not")
         elif not t["holds"]:
             res.disagree(case, f"the compiled {path} encoder model violates the statement of the totality theorem: {t}")
